@@ -34,6 +34,7 @@ type VerifyFunc struct {
 	usedCallClauses map[*Clause]bool
 	usedLoops map[int]bool
 	returns   int
+	entryFrontier string
 }
 
 type funcInfo struct {
@@ -624,6 +625,9 @@ func (vf *VerifyFunc) enterBlock(st *State, fr *Frame, b *ssa.BasicBlock) bool {
 	back := b.Dominates(from)
 	where := st.pos(b.Instrs[len(b.Instrs)-1])
 	if back {
+		if top && vf.fc != nil && vf.fc.HasMod {
+			vf.checkFrame(st, where, "frame.loop")
+		}
 		for i, c := range invs {
 			t := vf.evalClause(st, c, vf.loopEnv(fr), nil)
 			st.check("inv.pres", lbl(c, fmt.Sprintf("loop%d.%d", ord, i)), c.Prop, c.Src, where, t)
@@ -642,7 +646,10 @@ func (vf *VerifyFunc) enterBlock(st *State, fr *Frame, b *ssa.BasicBlock) bool {
 			fr.vars[phi.Comment] = nv
 		}
 	}
-	vf.havocLoop(st, fr, fi.loopBody[b])
+	hk := vf.havocLoop(st, fr, fi.loopBody[b])
+	if top {
+		vf.assumeLoopFrame(st, hk)
+	}
 	for _, c := range invs {
 		st.assume(vf.evalClause(st, c, vf.loopEnv(fr), nil))
 	}
@@ -676,9 +683,10 @@ func (vf *VerifyFunc) loopEnv(fr *Frame) map[string]*Val {
 }
 
 // havocLoop forgets heap state written inside the loop body.
-func (vf *VerifyFunc) havocLoop(st *State, fr *Frame, body map[*ssa.BasicBlock]bool) {
+func (vf *VerifyFunc) havocLoop(st *State, fr *Frame, body map[*ssa.BasicBlock]bool) []string {
 	keys := map[string]bool{}
 	all := false
+	allWhy := ""
 	for b := range body {
 		for _, in := range b.Instrs {
 			switch x := in.(type) {
@@ -702,6 +710,10 @@ func (vf *VerifyFunc) havocLoop(st *State, fr *Frame, body map[*ssa.BasicBlock]b
 					}
 				default:
 					all = true
+					allWhy = vf.eng.calleeKey(cc)
+					if allWhy == "" {
+						allWhy = "dynamic call " + calleeShortName(cc)
+					}
 				}
 			case *ssa.Send, *ssa.Select:
 			case *ssa.Alloc:
@@ -710,8 +722,8 @@ func (vf *VerifyFunc) havocLoop(st *State, fr *Frame, body map[*ssa.BasicBlock]b
 		}
 	}
 	if all {
-		st.havocAll("loop body of " + fr.fn.Name() + " calls functions with unknown effects")
-		return
+		st.havocAll("loop body of " + fr.fn.Name() + " calls " + shortFuncName(allWhy) + " whose effects are unknown")
+		return nil
 	}
 	var ks []string
 	for k := range keys {
@@ -721,6 +733,7 @@ func (vf *VerifyFunc) havocLoop(st *State, fr *Frame, body map[*ssa.BasicBlock]b
 	for _, k := range ks {
 		st.havocKey(k)
 	}
+	return ks
 }
 
 func (vf *VerifyFunc) storeKeys(addr ssa.Value) []string {
